@@ -1,5 +1,6 @@
 import MaddyVerif.Model.Errors
 import MaddyVerif.Model.ErrorsNextHop
+import MaddyVerif.Model.ErrorsQueueHist
 import Driver.Util
 namespace Driver.C16
 open MaddyVerif.Errors Driver
@@ -177,6 +178,56 @@ partial def parseErrs : List String → Option (List Err)
   | ";" :: r => parseErrs r
   | r => do let (e, r') ← parseErr r; let l ← parseErrs r'; pure (e :: l)
 
+
+/-! ### histories of attempts through the queue, failure reports (round 5) -/
+
+def splitSemi (toks : List String) : List (List String) :=
+  let (cur, acc) := toks.foldl (fun (p : List String × List (List String)) t =>
+    if t == ";" then ([], p.1.reverse :: p.2) else (t :: p.1, p.2)) ([], [])
+  (cur.reverse :: acc).reverse
+
+/-- one planned attempt: `[K] ok` or `[K] <stage> <tree>`; `K` = the queue is restarted before the
+attempt, `<stage>` ∈ s r b n c = where the transaction fails — both invisible to the model -/
+def parseAttempt : List String → Option (Option Err)
+  | "K" :: r => parseAttempt r
+  | ["ok"] => some none
+  | st :: r =>
+    if st == "s" || st == "r" || st == "b" || st == "n" || st == "c" then
+      match parseErr r with
+      | some (e, []) => some (some e)
+      | _ => none
+    else none
+  | [] => none
+
+def showEnch (e : Ench) : String := s!"{e.cls}.{e.subj}.{e.det}"
+
+def showLine (l : ReportLine) : String :=
+  s!"status={showEnch l.status} diag={l.diagCode} {showEnch l.diagEnch} {hexRunes l.diagMsg} human={l.humanCode}"
+
+def showObs (i : Nat) (o : Obs) : String :=
+  match o.dec with
+  | .delivered => s!"a{i}:delivered"
+  | .retry =>
+    let st := match o.state.stored with | some r => showStored r | none => "none"
+    s!"a{i}:retry tries={o.state.tries} stored={st}"
+  | .giveUp =>
+    match o.report with
+    | some l => s!"a{i}:giveup " ++ showLine l
+    | none => s!"a{i}:giveup genfail"
+
+def showHist (obs : List Obs) : String :=
+  let rec go (i : Nat) : List Obs → List String
+    | [] => []
+    | o :: r => showObs i o :: go (i + 1) r
+  " | ".intercalate (go 1 obs)
+
+def parseStoredList : List (List String) → Option (List Reply)
+  | [] => some []
+  | seg :: r => do
+      let (c, en, m) ← parseReply? seg
+      let l ← parseStoredList r
+      pure (⟨c, some en, .text m⟩ :: l)
+
 def handle : List String → String
   | "wrap" :: mang :: rest =>
     match parseErr rest with
@@ -240,6 +291,23 @@ def handle : List String → String
     | some errs =>
       let e := multipleErrs errs
       showReply (wrapErr false e) ++ " | " ++ showReply (wrapErr true e)
+    | none => "bad-op"
+  | "qhist" :: mt :: u :: rest =>
+    match mt.toNat?, (splitSemi rest).mapM parseAttempt with
+    | some m, some plan =>
+      -- an attempt the plan does not cover is accepted by the target
+      showHist (runHist m (u == "1") .init (plan ++ [none]))
+    | _, _ => "bad-op"
+  | "rep" :: u :: _action :: rest =>
+    match parseStoredList (splitSemi rest) with
+    | some rs =>
+      match reportLines (u == "1") rs with
+      | some ls =>
+        let rec go (i : Nat) : List ReportLine → List String
+          | [] => []
+          | l :: r => s!"r{i}:{showLine l}" :: go (i + 1) r
+        " | ".intercalate (go 1 ls)
+      | none => "generr:statusMissing"
     | none => "bad-op"
   | ["milter", code] =>
     match code.toNat? with
